@@ -19,7 +19,7 @@ EXTRACT = ["C15", "C14"]
 BINS = ["c15"]
 NEEDS_CICADA = True
 ALLOWED_AXIOMS = []
-PINNED = ["C15_args", "C15_args_newline_refuted", "C15_func_status", "C15_func_status_seq", "C15_sete_flat", "C15_sete", "C15_sete_stops", "C15_sete_calls_instances", "C15_flag_preserved", "C15_sete_calls", "C15_sete_combined", "C15_sete_rest_of_body",
+PINNED = ["C15_args", "C15_args_newline_refuted", "C15_func_status", "C15_func_status_seq", "C15_sete_flat", "C15_sete", "C15_sete_stops", "C15_sete_calls_instances", "C15_flag_preserved", "C15_sete_calls", "C15_sete_combined", "C15_sete_rest_of_body", "C15_source_with_redirection",
           "C15_full", "C15_refuted"]
 TRUSTED = [
     "Coq 8.16.1 kernel (coqc; coqchk in thorough); vm_compute in Example witnesses and in the regression Examples",
@@ -138,16 +138,18 @@ def gen_l2(ctx, hp, workdir_token):
     cases.append(dict(files={"main.sh": "function f {\n%s\n}\nf\n" % H(4, "fm")}, main="main.sh", args=[],
                       expect=([["@x4", "fm"]], 4), known=None, tag="func-last"))
     # (c) source: functions, variables persist; chain to depth 3; status of source = last command of the file
+    RD = ["", " > load.log", " 2> /dev/null", " >> out.log"]     # a redirection on a builtin line must change nothing
     for depth in (1, 2, 3):
+      for rd in RD:
         for st in (0, 5):
             files = {}
             for d in range(1, depth + 1):
                 t = "V%d=val%d\nfunction g%d {\n%s\n}\n" % (d, d, d, H(0, "g%d" % d, "$1"))
                 if d < depth:
-                    t += "source %s/lib%d.sh\n" % (W, d + 1)
+                    t += "source %s/lib%d.sh%s\n" % (W, d + 1, rd)
                 t += H(st if d == 1 else 0, "end%d" % d) + "\n"
                 files["lib%d.sh" % d] = t
-            main = "source %s/lib1.sh\n%s\n" % (W, H(0, "probe", "s$?"))
+            main = "source %s/lib1.sh%s\n%s\n" % (W, rd, H(0, "probe", "s$?"))
             exp = []
             for d in range(depth, 0, -1):
                 exp.append(["@x%d" % (st if d == 1 else 0), "end%d" % d])
@@ -158,26 +160,35 @@ def gen_l2(ctx, hp, workdir_token):
             main += H(0, "vars", *["$V%d" % d for d in range(1, depth + 1)]) + "\n"
             exp.append(["@x0", "vars"] + ["val%d" % d for d in range(1, depth + 1)])
             files["main.sh"] = main
-            cases.append(dict(files=files, main="main.sh", args=[], expect=(exp, 0), known=None, tag="source%d" % depth))
+            cases.append(dict(files=files, main="main.sh", args=[], expect=(exp, 0), known=None, tag="source%d%s" % (depth, rd.strip()[:2])))
+    # source FILE args > f : the argument reaches the file, its variable and function persist; also from inside a function
+    for rd in RD:
+        lib = "W1=w$1\nfunction gg {\n%s\n}\n%s\n" % (H(0, "gg", "$1"), H(0, "lib", "$1"))
+        main = "source %s/la.sh a1%s\n%s\ngg z\nfunction ld {\nsource %s/la.sh b2%s\n}\nld\n%s\n" % (
+            W, rd, H(0, "v", "$W1"), W, rd, H(0, "v", "$W1"))
+        exp = [["@x0", "lib", "a1"], ["@x0", "v", "wa1"], ["@x0", "gg", "z"], ["@x0", "lib", "b2"], ["@x0", "v", "wb2"]]
+        cases.append(dict(files={"main.sh": main, "la.sh": lib}, main="main.sh", args=[], expect=(exp, 0), known=None, tag="source-args" + rd.strip()[:2]))
     # (d) script status = last command; exit N at every position
     for st in (0, 1, 42, 255):
         cases.append(dict(files={"main.sh": "%s\n%s\n" % (H(0, "a"), H(st, "b"))}, main="main.sh", args=[],
                           expect=([["@x0", "a"], ["@x%d" % st, "b"]], st), known=None, tag="status"))
     for k in range(0, 4):
         for code in (0, 7):
+          for rd in RD:
             lines = [H(0, "m%d" % i) for i in range(3)]
-            lines.insert(k, "exit %d" % code)
+            lines.insert(k, "exit %d%s" % (code, rd))
             exp = [["@x0", "m%d" % i] for i in range(k)]
-            cases.append(dict(files={"main.sh": "\n".join(lines) + "\n"}, main="main.sh", args=[], expect=(exp, code), known=None, tag="exit"))
-    cases.append(dict(files={"main.sh": "function q {\n%s\nexit 9\n%s\n}\n%s\nq\n%s\n" % (H(0, "in1"), H(0, "in2"), H(0, "a"), H(0, "after"))},
-                      main="main.sh", args=[], expect=([["@x0", "a"], ["@x0", "in1"]], 9), known=None, tag="exit-in-func"))
-    cases.append(dict(files={"main.sh": "%s\nsource %s/l.sh\n%s\n" % (H(0, "a"), W, H(0, "after")), "l.sh": "%s\nexit 6\n%s\n" % (H(0, "in1"), H(0, "in2"))},
-                      main="main.sh", args=[], expect=([["@x0", "a"], ["@x0", "in1"]], 6), known=None, tag="exit-in-source"))
+            cases.append(dict(files={"main.sh": "\n".join(lines) + "\n"}, main="main.sh", args=[], expect=(exp, code), known=None, tag="exit" + rd.strip()[:2]))
+    for rd in RD:
+        cases.append(dict(files={"main.sh": "function q {\n%s\nexit 9%s\n%s\n}\n%s\nq\n%s\n" % (H(0, "in1"), rd, H(0, "in2"), H(0, "a"), H(0, "after"))},
+                          main="main.sh", args=[], expect=([["@x0", "a"], ["@x0", "in1"]], 9), known=None, tag="exit-in-func" + rd.strip()[:2]))
+        cases.append(dict(files={"main.sh": "%s\nsource %s/l.sh%s\n%s\n" % (H(0, "a"), W, rd, H(0, "after")), "l.sh": "%s\nexit 6%s\n%s\n" % (H(0, "in1"), rd, H(0, "in2"))},
+                          main="main.sh", args=[], expect=([["@x0", "a"], ["@x0", "in1"]], 6), known=None, tag="exit-in-source" + rd.strip()[:2]))
     # (e) set -e: failing command at every position of a flat script
     for k in range(0, 4):
         sts = [0, 0, 0, 0]
         sts[k] = rng.choice([1, 3, 200])
-        lines = ["set -e"] + [H(sts[i], "m%d" % i) for i in range(4)]
+        lines = ["set -e" + RD[k]] + [H(sts[i], "m%d" % i) for i in range(4)]
         exp = [["@x%d" % sts[i], "m%d" % i] for i in range(k + 1)]
         cases.append(dict(files={"main.sh": "\n".join(lines) + "\n"}, main="main.sh", args=[], expect=(exp, sts[k]), known=None, tag="sete-flat"))
     # without set -e nothing stops
@@ -247,11 +258,11 @@ def gen_sete_family(ctx, hp, count):
             if r < 0.3 and nfun:
                 main.append(("call", "f%d" % rng.randrange(nfun)))
             elif r < 0.45 and libs:
-                main.append(("source", rng.randrange(len(libs))))
+                main.append(("source", rng.randrange(len(libs)), rng.choice(["", "", " > load.log", " 2> /dev/null", " >> out.log"])))
             else:
                 main.append(ext(0.3))
         if rng.random() < 0.85:
-            main.insert(rng.randint(0, len(main)), ("sete",))
+            main.insert(rng.randint(0, len(main)), ("sete", rng.choice(["", "", " > /dev/null", " 2> /dev/null", " >> out.log"])))
         out.append(dict(funs=funs, libs=libs, main=main))
     return out
 
@@ -301,9 +312,9 @@ def render_sete(c, hp):
         if it[0] == "call":
             return it[1]
         if it[0] == "source":
-            return "source lib%d.sh" % it[1]
+            return "source lib%d.sh%s" % (it[1], it[2] if len(it) > 2 else "")
         if it[0] == "sete":
-            return "set -e"
+            return "set -e" + (it[1] if len(it) > 1 else "")
         if it[0] == "def":
             return "function %s {\n%s\n}" % (it[1], "\n".join(line(x) for x in it[2]))
         if it[0] == "andor":
@@ -527,10 +538,12 @@ def run(ctx, res):
         m_seme = C.run_model(ctx.model["C14"], C.write_cases("c15_e_sem.txt", [C.case("seme", a, "60") for a in asts]))
         m_rune = C.run_model(ctx.model["C14"], C.write_cases("c15_e_run.txt", [C.case("rune", t, "60") for t in etexts]))
 
+        SETE = ["set -e\n", "set -e 2> /dev/null\n", "set -e > /dev/null\n", "set -e >> out.log\n"]
+
         def one_e(ix):
             d = os.path.join(work, "e%d" % ix)
             os.makedirs(d)
-            r_ = K.run_script(ctx.cicada, "set -e\n" + etexts[ix], d)
+            r_ = K.run_script(ctx.cicada, SETE[ix % len(SETE)] + etexts[ix], d)
             shutil.rmtree(d, ignore_errors=True)
             return r_
         with ThreadPoolExecutor(max_workers=C.NCPU) as ex:
@@ -551,7 +564,7 @@ def run(ctx, res):
             if (log, rc) != (elog, erc):
                 nviol += 1
                 if nviol <= 3:
-                    res.violate(kind="oracle", layer="L2c", entry="script", ast=asts[ix], input="set -e\n" + etexts[ix],
+                    res.violate(kind="oracle", layer="L2c", entry="script", ast=asts[ix], input=SETE[ix % len(SETE)] + etexts[ix],
                                 expected="trace=%r status=%r" % (elog, erc), observed="trace=%r status=%r" % (log, rc),
                                 stderr=err[-300:], failing_input=True,
                                 note="with set -e the script does not end at the first failing command (at any nesting depth) "
